@@ -75,71 +75,79 @@ def run_case(case):
             return Result(['rejected_' + inv], nontrivial=True)
         raise Violation('%s was accepted: weights %r prices %r -> %r' % (inv, weights, dh.q, out))
 
-    out = sizer(kit.T_OPEN, dict(weights))
-    if set(out.keys()) != set(weights.keys()):
-        raise Violation('target keys %s differ from weight keys %s' % (sorted(out), sorted(weights)))
-    f = kit.fee_rate(case['fee'])
-    b_ = F(buf)
-    budget = (1 - b_) * E
-    wsum_float = sum(w for w in weights.values())
-    wsum = sum(F(w) for w in weights.values())
-    unscaled = bool(np.isclose(wsum_float, 0.0))
-    cls = []
-    total = F(0)
-    half = False
-    for a, w in weights.items():
-        qty = out[a]['quantity']
-        if isinstance(qty, bool) or not isinstance(qty, (int, np.integer)):
-            raise Violation('quantity for %s is %r (%s), not a whole number' % (a, qty, type(qty).__name__))
-        if qty < 0:
-            raise Violation('negative quantity %r for %s' % (qty, a))
-        p = F(dh.q[a][1])
-        total += qty * p
-        if wsum == 0:
-            if qty != 0:
-                raise Violation('all-zero weights gave quantity %r for %s' % (qty, a))
-            continue
-        share = budget * F(w) / wsum                       # normalised share of the buffered equity
-        if unscaled:
-            if qty * p > share * (1 + REL):
-                raise Violation('near-zero-sum weights: %s costs %s > share %s' % (a, float(qty * p), float(share)))
-            continue
-        fee = f * share
-        slack = REL * (share + p)
-        if qty * p + fee > share + slack:
-            raise Violation('%s: quantity %d at %r costs %r + fee %r > allocation %r (E=%r buffer=%r w=%r/%r)' % (
-                a, qty, float(p), float(qty * p), float(fee), float(share), float(E), buf, w, float(wsum)))
-        if (qty + 1) * p + fee <= share - slack:
-            raise Violation('%s: quantity %d is not the largest affordable: one more at %r still fits '
-                            'allocation %r (fee %r, E=%r buffer=%r w=%r/%r)' % (
-                                a, qty, float(p), float(share), float(fee), float(E), buf, w, float(wsum)))
-        x = (share - fee) / p
-        if x > 0 and (x - int(x)) >= F(1, 2):
-            half = True
-        if x >= 10 ** 11:
-            cls.append('huge_quantity')
-    if total > budget * (1 + REL):
-        raise Violation('whole target costs %r > (1-buffer)*equity %r' % (float(total), float(budget)))
-    npos = sum(1 for w in weights.values() if w > 0)
-    cls.append('all_zero' if wsum == 0 else ('near_zero_sum' if unscaled else 'scaled'))
-    cls.append('n_assets_%d' % len(weights))
-    if case.get('hold'):
-        cls.append('equity_with_positions')
-    if case['buffer'] == 'default':
-        cls.append('default_buffer')
-    if case['fee'] == 'default':
-        cls.append('default_fee_model')
-    if f > 0:
-        cls.append('fee_positive')
-    if E <= 2:
-        cls.append('equity_le_2')
-    if any(v[1] <= 1.0 for a, v in dh.q.items() if a in weights):
-        cls.append('price_le_1')
-    if any(out[a]['quantity'] == 1 for a in out):
-        cls.append('quantity_exactly_1')
-    if half:
-        cls.append('fraction_ge_half')
-    nt = npos >= 2 and (f > 0 or b_ > 0) and half and not unscaled
+    all_cls, any_nt = [], False
+    vectors = [weights] + [dict(w) for w in case.get('more_weights', [])]
+    for call_no, weights in enumerate(vectors):
+        out = sizer(kit.T_OPEN, dict(weights))
+        if set(out.keys()) != set(weights.keys()):
+            raise Violation('target keys %s differ from weight keys %s' % (sorted(out), sorted(weights)))
+        f = kit.fee_rate(case['fee'])
+        b_ = F(buf)
+        budget = (1 - b_) * E
+        wsum_float = sum(w for w in weights.values())
+        wsum = sum(F(w) for w in weights.values())
+        unscaled = bool(np.isclose(wsum_float, 0.0))
+        cls = []
+        total = F(0)
+        half = False
+        for a, w in weights.items():
+            qty = out[a]['quantity']
+            if isinstance(qty, bool) or not isinstance(qty, (int, np.integer)):
+                raise Violation('quantity for %s is %r (%s), not a whole number' % (a, qty, type(qty).__name__))
+            if qty < 0:
+                raise Violation('negative quantity %r for %s' % (qty, a))
+            p = F(dh.q[a][1])
+            total += qty * p
+            if wsum == 0:
+                if qty != 0:
+                    raise Violation('all-zero weights gave quantity %r for %s' % (qty, a))
+                continue
+            share = budget * F(w) / wsum                       # normalised share of the buffered equity
+            if unscaled:
+                if qty * p > share * (1 + REL):
+                    raise Violation('near-zero-sum weights: %s costs %s > share %s' % (a, float(qty * p), float(share)))
+                continue
+            fee = f * share
+            slack = REL * (share + p)
+            if qty * p + fee > share + slack:
+                raise Violation('%s: quantity %d at %r costs %r + fee %r > allocation %r (E=%r buffer=%r w=%r/%r)' % (
+                    a, qty, float(p), float(qty * p), float(fee), float(share), float(E), buf, w, float(wsum)))
+            if (qty + 1) * p + fee <= share - slack:
+                raise Violation('%s: quantity %d is not the largest affordable: one more at %r still fits '
+                                'allocation %r (fee %r, E=%r buffer=%r w=%r/%r)' % (
+                                    a, qty, float(p), float(share), float(fee), float(E), buf, w, float(wsum)))
+            x = (share - fee) / p
+            if x > 0 and (x - int(x)) >= F(1, 2):
+                half = True
+            if x >= 10 ** 11:
+                cls.append('huge_quantity')
+        if total > budget * (1 + REL):
+            raise Violation('whole target costs %r > (1-buffer)*equity %r' % (float(total), float(budget)))
+        npos = sum(1 for w in weights.values() if w > 0)
+        cls.append('all_zero' if wsum == 0 else ('near_zero_sum' if unscaled else 'scaled'))
+        cls.append('n_assets_%d' % len(weights))
+        if case.get('hold'):
+            cls.append('equity_with_positions')
+        if case['buffer'] == 'default':
+            cls.append('default_buffer')
+        if case['fee'] == 'default':
+            cls.append('default_fee_model')
+        if f > 0:
+            cls.append('fee_positive')
+        if E <= 2:
+            cls.append('equity_le_2')
+        if any(v[1] <= 1.0 for a, v in dh.q.items() if a in weights):
+            cls.append('price_le_1')
+        if any(out[a]['quantity'] == 1 for a in out):
+            cls.append('quantity_exactly_1')
+        if half:
+            cls.append('fraction_ge_half')
+        nt = npos >= 2 and (f > 0 or b_ > 0) and half and not unscaled
+        all_cls += cls
+        any_nt = any_nt or nt
+        if call_no:
+            all_cls.append('sizer_reused')
+    cls, nt = sorted(set(all_cls)), any_nt
     return Result(cls, nontrivial=nt)
 
 
@@ -192,10 +200,12 @@ def cases(draw):
         case['hold'] = [a, draw(st.sampled_from([0.1, 0.3, 0.5])), draw(st.sampled_from([0.5, 0.9, 1.0, 1.7]))]
         if a not in case['prices']:
             case['hold_price'] = draw(price)
+    if kind in ('mixed', 'ints') and draw(st.sampled_from([False, False, True])):
+        case['more_weights'] = [{a: _weight(draw) for a in assets} for _ in range(draw(st.integers(1, 2)))]
     inv = draw(st.sampled_from([None] * 12 + ['neg_weight', 'buffer_low', 'buffer_high', 'nan_price']))
     if inv == 'neg_weight':
         a = draw(st.sampled_from(assets))
-        case['weights'][a] = -draw(st.sampled_from([1e-6, 0.01, 0.5, 1.0, 3.0]))
+        case['weights'][a] = -draw(st.sampled_from([1e-6, 0.01, 0.5, 1.0, 3.0, 1e-10, 1e-12, 1e-9]))
     elif inv == 'buffer_low':
         case['buffer'] = -draw(st.sampled_from([1e-9, 0.01, 1.0]))
     elif inv == 'buffer_high':
@@ -205,6 +215,7 @@ def cases(draw):
         case.pop('hold', None)
     if inv:
         case['invalid'] = inv
+        case.pop('more_weights', None)
     return case
 
 
